@@ -223,6 +223,21 @@ def write_replay(prop, rep):
     return os.path.relpath(p, VERIF)
 
 
+def _library_exception(where, ex, prop, seed):
+    """the implementation raised, on an input the harness constructs as valid, an exception the harness did not expect.
+    If the innermost frames are library code this is a behavioural witness (replayable with the same VERIF_SEED); otherwise it is a
+    defect of the harness and is re-raised (exit 2)."""
+    import traceback
+    tb = traceback.extract_tb(ex.__traceback__)
+    in_lib = bool(tb) and any("/bip_utils/" in fr.filename for fr in tb[-6:])
+    if not in_lib:
+        raise ex
+    return {"property": prop, "entry_point": "%s:%d %s" % (tb[-1].filename, tb[-1].lineno, tb[-1].name), "request_lines": [],
+            "relation": "the implementation raised %s %s" % (type(ex).__name__, where), "input": "VERIF_SEED=%d (deterministic)" % seed,
+            "impl_output": "%s: %s" % (type(ex).__name__, str(ex)[:300]), "model_output": "a result",
+            "traceback": "".join(traceback.format_list(tb[-8:])), "no_failing_input": False}
+
+
 def finding_matches(f, case_line):
     return f.get("request") == case_line
 
@@ -252,6 +267,11 @@ def main(argv=None):
         return 2
     except subprocess.TimeoutExpired as ex:
         print("TIMEOUT:", ex)
+        return 2
+    except Exception:  # noqa  a crash of the machinery is neither a pass nor a violation
+        import traceback
+        traceback.print_exc()
+        print("HARNESS-ERROR: uncaught exception in the check (exit 2)")
         return 2
 
 
@@ -334,8 +354,11 @@ def check(mod, prop, tier, seed, no_build=False):
         if f.get("request"):
             l = f["request"]
             cases.append(Case(l.split(" ")[0], l.split(" ")[1:], "finding"))
-    gen = mod.gen(rng, tier)
-    cases += list(gen)
+    lib_raised = []
+    try:
+        cases += list(mod.gen(rng, tier))
+    except Exception as ex:  # noqa
+        lib_raised.append(_library_exception("while the case generator was building valid inputs with the implementation", ex, prop, seed))
     if hasattr(mod, "prepare"):
         cases = mod.prepare(cases)       # e.g. attach oracle tables
     model_out = run_driver([c.model_line for c in cases])
@@ -368,8 +391,12 @@ def check(mod, prop, tier, seed, no_build=False):
             diffs.append((c, i, m))
     # 5. relational checks on the implementation itself (property clauses that are not a diff)
     if hasattr(mod, "relations"):
-        for rel in mod.relations(rng, tier, rpt):
-            diffs.append(rel)
+        try:
+            for rel in mod.relations(rng, tier, rpt):
+                diffs.append(rel)
+        except Exception as ex:  # noqa
+            lib_raised.append(_library_exception("inside a relation check, on an input the relation constructs as valid", ex, prop, seed))
+    diffs += lib_raised
     # 6. classify
     reported_known = set()
     for f in open_findings:
